@@ -234,6 +234,18 @@ pub fn initial_states_d(t: Tier, with_big: bool) -> Vec<(Init, usize)> {
             exp2.an.push(name_rec(&a, T_CNAME, i, &long));
         }
         v.push((Init::Packet(encode(&exp2, Strategy::RdataOnly)), 1));
+        // ~5 KB on the wire, ~80 KB expanded (beyond what a 16-bit length can say): 300 A records owned by a
+        // 253-byte question name, then one authority and one additional record
+        {
+            let long253 = name_of_wire_len(253);
+            let mut huge = base_msg(&long253, T_A, true);
+            for i in 0..300u32 {
+                huge.an.push(a_rec(&long253, i, [10, 0, (i >> 8) as u8, i as u8]));
+            }
+            huge.ns.push(name_rec(&long253, T_NS, 7, &ba));
+            huge.ar.push(a_rec(&ba, 1, [1, 1, 1, 1]));
+            v.push((Init::Packet(encode(&huge, Strategy::Max)), 1));
+        }
         // just below 65535 bytes: growing a name must fail with "too large"
         let mut near = r(vec![], vec![name_rec(&a, T_NS, 7, &ba)], vec![a_rec(&ba, 1, [1, 1, 1, 1]), opt[1].clone()]);
         near.an.push(a_rec(&a, 1, [1, 2, 3, 4]));
